@@ -8,12 +8,21 @@
 // any unsynchronised conflicting access between them although the execution
 // is strictly serial and replays exactly.
 //
-// All scheduler state lives in package-level variables that are only touched
-// from //go:norace functions while holding the baton.
+// Goroutines started by the library itself (rewritten `go` statements) become
+// tasks too; channels and wait groups of repository code are virtual
+// (package simhook), mutexes are taken with TryLock + yield, so no task ever
+// blocks inside the Go runtime and "nobody can run" is a deadlock the
+// scheduler sees and reports (exit status ExitDeadlock).
+//
+// All scheduler state lives in fixed-size package-level arrays that are only
+// touched from //go:norace functions while holding the baton: maps and growing
+// slices are instrumented inside the runtime and would be reported as races
+// of the scheduler itself.
 package sched
 
 import (
 	"os"
+	"strconv"
 	"sync"
 	"syscall"
 	"time"
@@ -23,37 +32,29 @@ import (
 	"seehuhn.de/go/sfnt/zzverif/tape"
 )
 
-type pipe struct{ r, w int }
-
-var (
-	tp       *tape.Tape
-	pipes    []pipe // one per task; the last one belongs to the driver
-	done     []bool
-	cur      int
-	switches int
-	maxSw    int
-	// trace records (task, step) at every switch.  Fixed-size arrays only:
-	// maps and growing slices are instrumented inside the runtime and would
-	// be reported as races of the scheduler itself.
-	trace    [maxTrace]Switch
-	traceLen int
-	curOp    [maxTasks]int
-	midOp    [maxTasks]bool
-	overlap  [MaxOps][MaxOps]int // op pairs that overlapped mid-operation
-	buf      [1]byte
-
-	blockedYields int
-	syncYields    int
-)
-
-const maxSyncYields = 400
-
 const (
+	maxTasks = 64
 	maxTrace = 4096
-	maxTasks = 16
 	// MaxOps bounds the operation ids passed to BeginOp.
 	MaxOps = 48
+	// ExitBlocked: the running task waits for a parked one through a
+	// primitive the scheduler does not model (select, sync.Cond ...).  A
+	// limitation of the harness: the supervisor counts the case as
+	// inconclusive.
+	ExitBlocked = 77
+	// ExitDeadlock: every unfinished task is blocked on a modelled primitive
+	// (channel, wait group, mutex): a deadlock of the code under test.
+	ExitDeadlock = 78
+
+	stUnused = 0
+	stReady  = 1
+	stBlock  = 2
+	stDone   = 3
+
+	maxSyncYields = 400
 )
+
+type pipe struct{ r, w int }
 
 // Switch is one scheduling decision.
 type Switch struct {
@@ -61,6 +62,32 @@ type Switch struct {
 	Step     uint64
 	Site     string
 }
+
+var (
+	tp         *tape.Tape
+	pipes      [maxTasks]pipe
+	state      [maxTasks]int
+	blockedOn  [maxTasks]string
+	nTasks     int
+	driverPipe pipe
+	cur        int // running task; -1: the driver
+	switches   int
+	maxSw      int
+	trace      [maxTrace]Switch
+	traceLen   int
+	curOp      [maxTasks]int
+	midOp      [maxTasks]bool
+	overlap    [MaxOps][MaxOps]int
+	buf        [1]byte
+
+	nInitial      int
+	leftBlocked   int
+	blockedYields int
+	lockSpins     int
+	syncYields    int
+	spawned       int
+	chanBlocks    int
+)
 
 //go:norace
 func rawRead(fd int) {
@@ -110,26 +137,77 @@ func nextGap() uint64 {
 	return uint64(100000 + tp.Draw(3000000))
 }
 
-// pickNext chooses the next runnable task (never the driver while a task
-// remains).
+//go:norace
+func record(from, to int, site string) {
+	if traceLen < maxTrace {
+		trace[traceLen] = Switch{From: from, To: to, Step: simhook.Steps, Site: site}
+		traceLen++
+	}
+}
+
+// deadlock reports that no task can run and ends the process.
 //
 //go:norace
-func pickNext() int {
-	var runnable [maxTasks]int
+func deadlock(why string) {
+	msg := "SIM-DEADLOCK: " + why + "; blocked tasks:"
+	for i := 0; i < nTasks; i++ {
+		if state[i] == stBlock {
+			msg += " [task " + strconv.Itoa(i) + ": " + blockedOn[i] + "]"
+		}
+	}
+	os.Stderr.WriteString(msg + "\n")
+	os.Exit(ExitDeadlock)
+}
+
+// pickNext chooses the next ready task other than exclude (the tape
+// decides); if only exclude is ready it is returned; -1 = the driver (all
+// tasks done).  Unfinished tasks of which none is ready are a deadlock.
+//
+//go:norace
+func pickNext(exclude int) int {
+	var ready [maxTasks]int
 	k := 0
-	for i := 0; i < len(done)-1; i++ {
-		if !done[i] {
-			runnable[k] = i
-			k++
+	blocked := 0
+	for i := 0; i < nTasks; i++ {
+		switch state[i] {
+		case stReady:
+			if i != exclude {
+				ready[k] = i
+				k++
+			}
+		case stBlock:
+			blocked++
 		}
 	}
 	if k == 0 {
-		return len(done) - 1
+		if exclude >= 0 && state[exclude] == stReady {
+			return exclude
+		}
+		if blocked > 0 {
+			// Only a caller that cannot finish is a deadlock of the property:
+			// goroutines the library started and left waiting (a worker pool
+			// waiting for jobs) are counted, not judged.
+			for i := 0; i < nInitial; i++ {
+				if state[i] == stBlock {
+					deadlock("every unfinished task waits for another one")
+				}
+			}
+			leftBlocked = blocked
+		}
+		return -1
 	}
-	return runnable[tp.Draw(k)]
+	return ready[tp.Draw(k)]
 }
 
-// SwitchTo hands the baton to task `to` and parks the caller.
+//go:norace
+func pipeOf(i int) pipe {
+	if i < 0 {
+		return driverPipe
+	}
+	return pipes[i]
+}
+
+// switchTo hands the baton to task `to` and parks the caller.
 //
 //go:norace
 func switchTo(to int, site string) {
@@ -137,52 +215,57 @@ func switchTo(to int, site string) {
 	if to == from {
 		return
 	}
-	if traceLen < maxTrace {
-		trace[traceLen] = Switch{From: from, To: to, Step: simhook.Steps, Site: site}
-		traceLen++
-	}
+	record(from, to, site)
 	switches++
-	if from < maxTasks && to < maxTasks && from < len(done)-1 && to < len(done)-1 && midOp[from] && midOp[to] {
+	if from >= 0 && to >= 0 && midOp[from] && midOp[to] {
 		overlap[curOp[from]][curOp[to]]++
 	}
 	cur = to
-	rawWrite(pipes[to].w)
-	rawRead(pipes[from].r)
+	rawWrite(pipeOf(to).w)
+	rawRead(pipeOf(from).r)
 }
 
 // YieldPoint is called at operation boundaries and from simulated I/O.
 //
 //go:norace
 func YieldPoint(site string) {
-	if tp == nil {
+	if tp == nil || cur < 0 {
 		return
 	}
 	if switches >= maxSw && site == "tick" {
 		simhook.Next = ^uint64(0)
 		return
 	}
-	switchTo(pickNext(), site)
+	lockSpins = 0
+	switchTo(pickNext(-1), site)
 	simhook.Next = simhook.Steps + nextGap()
 }
 
+//go:norace
+func onStep() { YieldPoint("tick") }
+
 // blocked is installed as simhook.BlockedHook: the running task cannot take a
-// lock (its holder is parked).  The baton goes to another task.
+// mutex (its holder is parked).  The baton goes to another ready task.
 //
 //go:norace
 func blocked() {
-	var others [maxTasks]int
-	k := 0
-	for i := 0; i < len(done)-1; i++ {
-		if !done[i] && i != cur {
-			others[k] = i
-			k++
-		}
+	if tp == nil || cur < 0 {
+		return
 	}
-	if k == 0 {
-		panic("sched: the only runnable task waits for a lock that nobody can release (deadlock in the code under test)")
+	lockSpins++
+	if lockSpins > 200000 {
+		blockedOn[cur] = "mutex (spinning)"
+		state[cur] = stBlock
+		deadlock("a task spins on a mutex that is never released")
+	}
+	other := pickNext(cur)
+	if other == cur || other < 0 {
+		blockedOn[cur] = "mutex"
+		state[cur] = stBlock
+		deadlock("the only runnable task waits for a mutex that nobody can release")
 	}
 	blockedYields++
-	switchTo(others[tp.Draw(k)], "blocked-on-lock")
+	switchTo(other, "blocked-on-mutex")
 }
 
 // syncPoint is installed as simhook.SyncHook: before an atomic operation the
@@ -190,19 +273,14 @@ func blocked() {
 //
 //go:norace
 func syncPoint() {
-	if tp == nil || syncYields >= maxSyncYields {
+	if tp == nil || cur < 0 || syncYields >= maxSyncYields {
 		return
 	}
 	if tp.Draw(3) == 0 {
 		syncYields++
-		switchTo(pickNext(), "before-atomic")
+		switchTo(pickNext(-1), "before-atomic")
 	}
 }
-
-// onStep is installed as simhook.OnStep: a function-entry / loop yield.
-//
-//go:norace
-func onStep() { YieldPoint("tick") }
 
 // BeginOp / EndOp bracket one operation of the calling task.
 //
@@ -218,18 +296,90 @@ func EndOp(task int) {
 	YieldPoint("op-boundary")
 }
 
+// ---- simhook.Scheduler ----------------------------------------------------------------
+
+type impl struct{}
+
+//go:norace
+func newTask() int {
+	if nTasks == maxTasks {
+		panic("sched: too many tasks")
+	}
+	k := nTasks
+	var fds [2]int
+	if err := syscall.Pipe(fds[:]); err != nil {
+		panic(err)
+	}
+	pipes[k] = pipe{fds[0], fds[1]}
+	state[k] = stReady
+	midOp[k] = false
+	nTasks++
+	return k
+}
+
+// PreGo reserves a task for a goroutine the library is about to start.
+//
+//go:norace
+func (impl) PreGo() int {
+	spawned++
+	return newTask()
+}
+
+// Enter parks the new goroutine until it is scheduled for the first time.
+//
+//go:norace
+func (impl) Enter(k int) { rawRead(pipes[k].r) }
+
+// Exit ends task k.
+//
+//go:norace
+func (impl) Exit(k int) { finish(k) }
+
+// Current returns the running task.
+//
+//go:norace
+func (impl) Current() int { return cur }
+
+// Wake makes a blocked task ready.
+//
+//go:norace
+func (impl) Wake(k int) {
+	if k >= 0 && k < nTasks && state[k] == stBlock {
+		state[k] = stReady
+	}
+}
+
+// Block parks the running task until another task wakes it.
+//
+//go:norace
+func (impl) Block(what string) {
+	me := cur
+	state[me] = stBlock
+	blockedOn[me] = what
+	chanBlocks++
+	lockSpins = 0
+	next := pickNext(me) // ends the process if nobody can run
+	if next < 0 || next == me {
+		deadlock("the last running task blocks")
+	}
+	switchTo(next, "blocked:"+what)
+}
+
 // Stats describes one concurrent phase.
 type Stats struct {
+	LeftBlocked   int // library goroutines still waiting when all callers had returned
+	Switches      int
 	BlockedYields int
-	Switches   int
-	Overlaps   map[[2]int]int
-	TraceHash  uint64
-	TraceShort []Switch
+	ChanBlocks    int
+	Spawned       int
+	Overlaps      map[[2]int]int
+	TraceHash     uint64
+	TraceShort    []Switch
 }
 
 // Run executes the task bodies under the deterministic scheduler and returns
-// when all of them have finished.  body(i) must call BeginOp/EndOp around
-// its operations.
+// when all of them (and every goroutine they started) have finished.
+// body(i) must call BeginOp/EndOp around its operations.
 func Run(t *tape.Tape, n int, maxSwitches int, body func(task int)) Stats {
 	t.Reserve(1 << 16) // the scheduler must not grow the tape from a task
 	setup(t, n, maxSwitches)
@@ -244,17 +394,10 @@ func Run(t *tape.Tape, n int, maxSwitches int, body func(task int)) Stats {
 			taskMain(i, body)
 		}(i)
 	}
-	drive(n)
+	drive()
 	wg.Wait()
 	return teardown()
 }
-
-// ExitBlocked is the exit status of a worker whose tasks block on each other
-// through a synchronisation primitive the scheduler does not model (a
-// channel, sync.Cond, sync.WaitGroup ...): the running task waits for a parked
-// one, nothing can proceed.  This is a limitation of the harness, not a
-// violation; the supervisor counts the case as inconclusive.
-const ExitBlocked = 77
 
 //go:norace
 func progress() uint64 { return simhook.Steps + uint64(switches)<<40 }
@@ -282,28 +425,31 @@ func monitor(stop chan struct{}) {
 
 //go:norace
 func setup(t *tape.Tape, n int, maxSwitches int) {
-	tp = t
-	pipes = make([]pipe, n+1)
-	for i := range pipes {
-		var fds [2]int
-		if err := syscall.Pipe(fds[:]); err != nil {
-			panic(err)
-		}
-		pipes[i] = pipe{fds[0], fds[1]}
-	}
-	if n > maxTasks-1 {
+	if n > maxTasks/2 {
 		panic("sched: too many tasks")
 	}
-	done = make([]bool, n+1)
+	tp = t
+	nTasks = 0
+	for i := range state {
+		state[i] = stUnused
+	}
+	var fds [2]int
+	if err := syscall.Pipe(fds[:]); err != nil {
+		panic(err)
+	}
+	driverPipe = pipe{fds[0], fds[1]}
+	for i := 0; i < n; i++ {
+		newTask()
+	}
+	nInitial = n
+	leftBlocked = 0
 	curOp = [maxTasks]int{}
-	midOp = [maxTasks]bool{}
 	overlap = [MaxOps][MaxOps]int{}
 	traceLen = 0
-	switches = 0
-	blockedYields = 0
-	syncYields = 0
+	switches, blockedYields, syncYields, lockSpins, spawned, chanBlocks = 0, 0, 0, 0, 0, 0
 	maxSw = maxSwitches
-	cur = n // the driver holds the baton
+	cur = -1 // the driver holds the baton
+	simhook.ResetVirtual()
 }
 
 //go:norace
@@ -315,36 +461,36 @@ func taskMain(i int, body func(int)) {
 
 //go:norace
 func finish(i int) {
-	done[i] = true
-	to := pickNext()
-	if traceLen < maxTrace {
-		trace[traceLen] = Switch{From: i, To: to, Step: simhook.Steps, Site: "task-end"}
-		traceLen++
-	}
+	state[i] = stDone
+	midOp[i] = false
+	to := pickNext(-1)
+	record(i, to, "task-end")
 	cur = to
-	rawWrite(pipes[to].w)
+	rawWrite(pipeOf(to).w)
 }
 
 //go:norace
-func drive(n int) {
+func drive() {
 	simhook.Steps = 0
 	simhook.OnStep = onStep
 	simhook.BlockedHook = blocked
 	simhook.SyncHook = syncPoint
+	simhook.Sched = impl{}
 	simhook.Next = nextGap()
-	first := pickNext()
+	first := pickNext(-1)
 	cur = first
 	rawWrite(pipes[first].w)
-	rawRead(pipes[n].r) // until the last task hands the baton back
+	rawRead(driverPipe.r) // until the last task hands the baton back
 	simhook.Next = ^uint64(0)
 	simhook.OnStep = nil
 	simhook.BlockedHook = nil
 	simhook.SyncHook = nil
+	simhook.Sched = nil
 }
 
 //go:norace
 func teardown() Stats {
-	st := Stats{Switches: switches, Overlaps: map[[2]int]int{}, BlockedYields: blockedYields}
+	st := Stats{LeftBlocked: leftBlocked, Switches: switches, Overlaps: map[[2]int]int{}, BlockedYields: blockedYields, ChanBlocks: chanBlocks, Spawned: spawned}
 	for a := range overlap {
 		for b := range overlap[a] {
 			if overlap[a][b] > 0 {
@@ -354,7 +500,7 @@ func teardown() Stats {
 	}
 	h := uint64(14695981039346656037)
 	for _, s := range trace[:traceLen] {
-		h = tape.Mix(h ^ uint64(s.From)<<32 ^ uint64(s.To)<<16 ^ s.Step)
+		h = tape.Mix(h ^ uint64(s.From+1)<<32 ^ uint64(s.To+1)<<16 ^ s.Step)
 	}
 	st.TraceHash = h
 	k := traceLen
@@ -362,10 +508,12 @@ func teardown() Stats {
 		k = 60
 	}
 	st.TraceShort = append([]Switch(nil), trace[:k]...)
-	for _, p := range pipes {
-		syscall.Close(p.r)
-		syscall.Close(p.w)
+	for i := 0; i < nTasks; i++ {
+		syscall.Close(pipes[i].r)
+		syscall.Close(pipes[i].w)
 	}
+	syscall.Close(driverPipe.r)
+	syscall.Close(driverPipe.w)
 	tp = nil
 	return st
 }
